@@ -124,6 +124,7 @@ def main():
     ap.add_argument('out')
     ap.add_argument('--cases', type=int, default=0)
     ap.add_argument('--replay', default=None)
+    ap.add_argument('--resume-after', type=int, default=-1)
     a = ap.parse_args()
 
     import rsome
@@ -154,7 +155,8 @@ def main():
             rp = json.load(f)
         todo = [(rp.get('idx', 0), rp['spec'])]
     else:
-        todo = [(i, None) for i in range(a.shard, a.cases, a.nshards)]
+        todo = [(i, None) for i in range(a.shard, a.cases, a.nshards)
+                if i > a.resume_after]
 
     for idx, spec in todo:
         try:
